@@ -305,6 +305,10 @@ func (g *genState) genMutating(kind string, file string) Op {
 			if r.Chance(1, 12) {
 				ref = r.Pick2([]int{-1440, -1, 0, 1439, 1440, 1441, 2879})
 			}
+			if r.Chance(1, 7) {
+				// the same or a nearby wall-clock time, but on the previous / next day
+				ref += r.Pick2([]int{-1440, 1440, -1440, 1440, -2880, 2880}) + r.Range(-30, 90)
+			}
 			a.Time = genTimeSpec(r, ref)
 		} else if r.Chance(1, 3) {
 			a.Round = roundings[r.Intn(len(roundings))]
@@ -430,6 +434,40 @@ func (histEngine) generate(property string, seed int64, index int, tier string) 
 					docA.Records[i].EOL = map[string]string{"\n": "\r\n", "\r\n": "\n"}[docA.Records[0].EOL]
 				}
 			}
+		}
+	} else if property == "C11" && r.Chance(1, 6) {
+		// a large file, uniform except for two records (far apart) that disagree in one
+		// dimension: a 1:1 tie whose candidates first appear in different parts of the file
+		n := r.Range(64, 260)
+		dim := r.Intn(4)
+		i1, i2 := r.Range(0, n/2-1), r.Range(n/2, n-1)
+		day := base.AddDate(0, 0, -n-1)
+		docA = GDoc{FinalNewline: true}
+		for k := 0; k < n; k++ {
+			day = day.AddDate(0, 0, 1)
+			rec := GRecord{Y: day.Year(), M: int(day.Month()), D: day.Day(), Indent: "", EOL: "\n", BlankAfter: []string{""}}
+			rec.Date = fmtDate(rec.Y, rec.M, rec.D, false)
+			if k == i1 || k == i2 {
+				first := k == i1
+				switch dim {
+				case 0:
+					rec.Indent = map[bool]string{true: "  ", false: "\t"}[first]
+					rec.Entries = []GEntry{{Value: "1h"}}
+				case 1:
+					rec.Indent = "    "
+					rec.Entries = []GEntry{{Value: "8:00 - " + map[bool]string{true: "?", false: "???"}[first], Open: true}}
+				case 2:
+					rec.Indent = "    "
+					rec.Entries = []GEntry{{Value: map[bool]string{true: "8:00-9:00", false: "8:00 - 9:00"}[first]}}
+				default:
+					rec.Indent = "    "
+					rec.Entries = []GEntry{{Value: map[bool]string{true: "8:00am - 9:00am", false: "8:00 - 9:00"}[first]}}
+				}
+			}
+			if rec.Indent == "" {
+				rec.Indent = "    "
+			}
+			docA.Records = append(docA.Records, rec)
 		}
 	} else if property == "C11" && r.Chance(1, 2) {
 		// election shapes with three or four candidates: a minority style first, then two
@@ -616,6 +654,28 @@ func (g *genState) genC05Faults(op *Op, file string) {
 		g.userEdit(op, file)
 	case k == 9 && op.Kind == "pause":
 		op.Plan.KillAtEvent = r.Range(4, 40)
+	case (k == 13 || k == 14) && op.Kind == "pause" && name != "" && len(op.Steps) > 0:
+		// somebody edits the file while the pause is running
+		e := &EditFault{File: name}
+		switch r.Intn(5) {
+		case 0:
+			e.Kind = "bitrot"
+			dmg := damage(r, g.w.file(name), damageKinds[r.Intn(len(damageKinds))])
+			e.NewB64 = base64.StdEncoding.EncodeToString([]byte(dmg))
+		case 1:
+			e.Kind = "remove"
+		default:
+			e.Kind = "user_edit"
+			doc := genDoc(r, docOpts{today: g.clock, maxRecords: 3, wantOpen: r.Pick2([]int{1, 1, -1})})
+			e.NewB64 = base64.StdEncoding.EncodeToString([]byte(doc.render()))
+		}
+		pos := r.Intn(len(op.Steps))
+		op.Steps[pos].Edit = e
+		// make sure a minute boundary follows the edit most of the time
+		if r.Chance(3, 4) {
+			op.Steps = append(op.Steps, TimeStep{AdvanceS: r.Range(61, 200)})
+		}
+		delete(g.pred, name)
 	case k == 10 || k == 11:
 		// only hand-written write paths (open/rename/close/sync) can be hit by this one
 		op.Plan.MetaFailNth = r.Range(1, 4)
